@@ -2122,11 +2122,13 @@ handshake_switch_codec(int dns_fd, int bits)
 
 	fprintf(stderr, "Switching upstream to codec %s\n", tempenc->name);
 
-	for (i = 0; running && i < 5; i++) {
+	/* Two rounds of five: unlike the other handshake steps this one cannot
+	   fall back to anything when it gets no reply, see below */
+	for (i = 0; running && i < 10; i++) {
 
 		send_handshake_query(dns_fd, sw_codec);
 
-		read = handshake_waitdns(dns_fd, in, sizeof(in) - 1, 's', 'S', i+1);
+		read = handshake_waitdns(dns_fd, in, sizeof(in) - 1, 's', 'S', (i % 5) + 1);
 
 		if (read > 0) {
 			/* compare only what this reply brought */
@@ -2154,13 +2156,12 @@ handshake_switch_codec(int dns_fd, int bits)
 
 	fprintf(stderr, "No reply from server on codec switch. ");
 
-	/* Our requests may have arrived and only the replies got lost: then
-	   the server has switched already. Make it return to Base32 too. */
-	if (tempenc != &base32_ops) {
-		fprintf(stderr, "Falling back to upstream codec Base32\n");
-		dataenc = &base32_ops;
-		return handshake_switch_codec(dns_fd, 5);
-	}
+	/* Our requests may have arrived and only the replies got lost, or they
+	   may still arrive, late: the server has switched already or will do
+	   so at any moment. Asking it for Base32 now would race with those
+	   requests (the one the server sees last wins), so a session only
+	   ever asks for one upstream codec. Without a confirmation the
+	   server's codec is unknown: give up. */
 	return 1;
 
 codec_revert:
